@@ -213,6 +213,44 @@ def run_one(ck, prog):
               detail=f"the child-tid pointer passed to clone is {show(args[5])}; it must be the address of the exit word the handle waits on")
         ck.ob("C05.6", "start-fn-arg", mentions(args[0], ctx.prov, lambda z: z[0] == "call" and (z[1] or "").endswith("onwed_split_fn_once")), fn=T.SPAWN, detail="start function must come from the closure split")
         ck.ob("C05.6", "unmap-args", mentions(args[6], ctx.prov, lambda z: z[0] == "call" and (z[1] or "").endswith("mmap::mmap")), fn=T.SPAWN, detail=f"stack_unmap_ptr {show(args[6])} must be the mapping's base")
+        # the child's stack top is the end of what was mapped: base (the mmap result itself, through Result plumbing only) + the
+        # length that very mmap call was given, minus alignment / room for the start arguments. A base that came from elsewhere (a
+        # second, smaller mapping tried after a refusal) with the first length puts the child's stack outside of its mapping.
+        def is_base(e, depth=0):
+            e = strip_casts(e)
+            if not isinstance(e, tuple) or depth > 12:
+                return None
+            if e[0] == "call" and (e[1] or "").endswith("unistd::mmap::mmap"):
+                return e
+            if e[0] == "call":
+                if (e[1] or "").endswith(("Try>::branch", "Try::branch", "::unwrap", "::unwrap_unchecked", "::expect", "::map_err", "::inspect_err", "::ok", "::ok_or", "::ok_or_else")) and e[2]:
+                    return is_base(e[2][0], depth + 1)      # none of these changes the success value
+                return None
+            if e[0] in ("field", "downcast"):
+                return is_base(e[1], depth + 1)
+            return None
+        def size_value(e):
+            e = strip_casts(e)
+            while isinstance(e, tuple) and e[0] == "call" and (e[1] or "").endswith("new_unchecked") and e[2]:
+                e = strip_casts(e[2][0])
+            v = fold(e)
+            return v if v is not None else canon(e)
+        top = strip_casts(args[1])
+        for _ in range(8):
+            if isinstance(top, tuple) and top[0] == "bin" and top[1] in ("Sub", "BitAnd"):
+                top = strip_casts(top[2])
+            else:
+                break
+        ok_top, why = False, f"stack pointer {show(args[1])[:120]} is not <mmap result> + <mapped length> - ..."
+        if isinstance(top, tuple) and top[0] == "bin" and top[1] == "Add":
+            m = is_base(top[2])
+            if m is None:
+                why = f"the base of the child's stack, {show(top[2])[:120]}, is not the result of the stack mmap itself"
+            elif size_value(top[3]) != size_value(m[2][1]):
+                why = f"the child's stack top is base + {size_value(top[3])} but that mapping is {size_value(m[2][1])} long"
+            else:
+                ok_top = True
+        ck.ob("C05.6", "child-stack-top-is-the-end-of-its-mapping", ok_top, fn=T.SPAWN, site=ctx.site(cb), detail=why + ": the new thread would run on (and the parent would write its start arguments into) memory outside the mapping")
     gf = prog.fns.get(T.TSM + "get_futex")
     if ck.anchor("C05.6", "Tsm::get_futex", gf) and init is not None:
         # both use the same offset constant
